@@ -463,13 +463,23 @@ fn gen_matrix(rng: &mut Rng) -> Mat {
                 row[j] = rng.range(-16, 8) as f32 / 4.0;
             }
         }
-    } else if r < 70 {
+    } else if r < 63 {
         // decimal grid: multiples of 0.1 / 0.01 (not representable: floor boundaries)
         mk = "decimal";
         let den = *rng.pick(&[10.0f32, 100.0]);
         for row in mat.iter_mut() {
             for j in 0..4 {
                 row[j] = rng.range(-60, 30) as f32 / den * if den > 50.0 { 10.0 } else { 1.0 };
+            }
+        }
+    } else if r < 70 {
+        // small rounded weights on a 0.05 lattice (hand-written PSSM files): many words tie in
+        // real score but not in integer score, so the refinement converges only when the f32
+        // representation noise separates them (granularity 1e-8 and below)
+        mk = "lattice";
+        for row in mat.iter_mut() {
+            for j in 0..4 {
+                row[j] = (rng.range(-24, 20) as f64 * 0.05) as f32;
             }
         }
     } else {
@@ -514,6 +524,16 @@ fn gen_matrix(rng: &mut Rng) -> Mat {
         let pos = rng.chance(1, 2);
         for row in mat.iter_mut() {
             row[4] = if pos { rng.range(-12, 6) as f32 / 2.0 } else { rng.range(-12, 0) as f32 / 2.0 };
+        }
+    }
+    // sometimes an uninformative position: all symbol cells equal (integer range 0 at every
+    // granularity), or nearly equal (integer range 0 at the coarse granularities only)
+    if rng.chance(1, 7) {
+        let i = rng.below(m as u64) as usize;
+        let v = mat[i][rng.below(4) as usize];
+        let near = rng.chance(1, 3);
+        for j in 0..4 {
+            mat[i][j] = if near { v + rng.below(4) as f32 * 0.0078125 } else { v };
         }
     }
     // sometimes equal rows (ties in the row permutation)
@@ -646,7 +666,13 @@ fn gen(prop: &str, seed: u64, n: usize, tier: &str) {
             } else {
                 qk == "between"
             };
-            let steps = 3 + rng.below((maxsteps - 2) as u64) as usize;
+            // mostly 3..maxsteps calls of next(); one case in ten runs deep (granularity down to 1e-10)
+            let deep = if mx.mk == "lattice" || mx.mk == "decimal" || mx.mk == "coarse" { 3 } else { 10 };
+            let steps = if rng.chance(1, deep) {
+                9 + rng.below(3) as usize
+            } else {
+                3 + rng.below((maxsteps - 2) as u64) as usize
+            };
             println!("{}", show_case(&id.to_string(), &mx, qk, nt, steps, q));
             id += 1;
         }
